@@ -39,10 +39,24 @@ def inst(name, path, n, g, steps, bounds, tiers=('quick', 'thorough'), **kw):
     return d
 
 
+C2 = {'VF_COARSE_SLEEP': 1}
 INSTANCES = [
+    # decided on the unchanged tree (see NOTES.md): rings_n2_c1 is a genuine defect (VIOLATION), schedule_n1 holds
     inst('rings_n2_c1', 3, 2, 2, 2, 'scheduleBulkToRings(1): task 0 in ring 0, cascadeWakeSeed(1); enterSleep/exitSleep one step each',
          defs={'VF_MAXCOUNT': 1, 'VF_COARSE_SLEEP': 1}, preempts=2, timeout=1500),
     inst('schedule_n1', 1, 1, 1, 2, 'one schedule() (central queue, claimAndWakeOne) onto the parked pool; enterSleep/exitSleep one step each',
-         defs={'VF_COARSE_SLEEP': 1}, preempts=2, timeout=1500),
-    inst('schedule_n2', 1, 2, 2, 3, 'one schedule() onto the fully parked pool', tiers=('experimental',)),
+         defs=dict(C2), preempts=2, timeout=1500),
+    # written, not run to a verdict inside the time budget (tier 'extended': run with --tier extended --only <name>)
+    inst('schedule_n2', 1, 2, 2, 3, 'one schedule() onto the fully parked pool', tiers=('extended',), defs=dict(C2), preempts=3, timeout=3000),
+    inst('placed_n2', 2, 2, 2, 3, 'one schedulePlaced(); assumption VF_SPINWINDOW: no worker starts parking while the call is in flight',
+         tiers=('extended',), defs=dict(C2, VF_SPINWINDOW=1), preempts=3, timeout=3000),
+    inst('placed_window_n2', 2, 2, 2, 3, 'one schedulePlaced() without the spin-window assumption (wake-before-push window, NOTES.md finding 3)',
+         tiers=('extended',), defs=dict(C2), preempts=3, timeout=3000),
+    inst('enqueue_n2', 4, 2, 2, 3, 'scheduleBulkEnqueue(count in 1..2)', tiers=('extended',), defs=dict(C2), preempts=3, timeout=3000),
+    inst('schedule_twice_n2', 5, 2, 2, 4, 'two schedule() calls in a row (claimed-but-not-woken sleeper, NOTES.md finding 2)',
+         tiers=('extended',), defs=dict(C2), preempts=3, timeout=3000),
+    inst('rings_n3_g2', 3, 3, 2, 3, 'scheduleBulkToRings(count in 1..3), two wake groups {0,1},{2}: cascade wrapping + cascadeWakeSeed',
+         tiers=('extended',), defs=dict(C2), preempts=3, timeout=3000),
+    inst('rings_wakerange_n2', 3, 2, 2, 2, 'scheduleBulkToRings(1) built with DISPENSO_DISABLE_CASCADE_WAKERANGE: wakeRange(1)',
+         tiers=('extended',), defs=dict(C2, VF_MAXCOUNT=1, VF_NOCASCADE=1), preempts=2, timeout=1500),
 ]
